@@ -22,6 +22,11 @@ def configs(tier, seed):
                     out.append({"harness": "setorder", "name": "setorder-%04x-%s-cid%d.%d.%d-%s" % (suite, feat, od, cc, sc, "s" if d else "c"), "suite": suite,
                                 "offered": [suite], "odcid_len": od, "c_cid_len": cc, "s_cid_len": sc, "ipv": 4, "n_app": 1, "data_len": 1, "set_orders": True,
                                 "sym_dirs": False, "dirs": [d], **extra})
+        # the client's id is the first half of the server's id: the one shape where the order of the id set could pick the wrong id
+        for d in (0, 1):
+            out.append({"harness": "setorder", "name": "setorder-%04x-alias-cid8.4.8-%s" % (suite, "s" if d else "c"), "suite": suite, "offered": [suite], "odcid_len": 8,
+                        "c_cid_len": 4, "s_cid_len": 8, "ipv": 4, "n_app": 1, "data_len": 1, "set_orders": True, "sym_dirs": False, "dirs": [d],
+                        "cid_alias": "client-prefix-of-server"})
     for proto in ("tls", "quic"):
         out.append({"harness": "cwd", "name": "cwd-" + proto, "proto": proto})
         out.append({"harness": "rerun", "name": "rerun-%s-then-%s" % (proto, proto), "first": proto, "second": proto})
@@ -31,7 +36,7 @@ def configs(tier, seed):
 
 
 def bounds(tier):
-    return {"setorder": "iteration orders of the connection-id sets (identity, reversal, all rotations: every pair in both orders) chosen independently at every iteration, C02 basic and NEW_CONNECTION_ID flows, 5 connection-id length shapes incl. zero-length",
+    return {"setorder": "iteration orders of the connection-id sets (identity, reversal, all rotations: every pair in both orders) chosen independently at every iteration, C02 basic and NEW_CONNECTION_ID flows, 5 connection-id length shapes incl. zero-length; one shape in which the client's id is a prefix of the server's id (elsewhere the ids of a connection are assumed prefix-free)",
             "cwd": "existence of every path not given on the command line", "rerun": "two consecutive in-process runs (TLS/QUIC in all four combinations)",
             "outside": "PYTHONHASHSEED effects other than set iteration order"}
 
